@@ -34,3 +34,5 @@ pub mod c16;
 pub mod c06;
 #[cfg(feature = "c01")]
 pub mod c01;
+#[cfg(feature = "c13")]
+pub mod c13;
